@@ -346,6 +346,21 @@ def renameVia (cache : List Nat) (old new : String) (live : List ColRef) : List 
 def renameAll (old new : String) (live : List ColRef) : List ColRef :=
   live.map fun c => if c.table == old then { c with table := new } else c
 
+-- ------------------------------------------------------------------------------------------ simplify.uniq_sort (as used by pushdown_predicates / the pipeline)
+open SqlglotModel.Bag in
+/-- the value of `p₁ AND p₂ AND …` on one row -/
+def conj3 : List B3 → B3
+  | [] => some true
+  | x :: xs => and3 x (conj3 xs)
+
+/-- `uniq_sort` de-duplicates the operands of an AND/OR chain by their generated KEY text (simplify.Gen): the first
+    operand of every key survives -/
+def dedupAux {α : Type} (seen : List String) : List (String × α) → List (String × α)
+  | [] => []
+  | x :: xs => if seen.contains x.1 then dedupAux seen xs else x :: dedupAux (x.1 :: seen) xs
+
+def dedupByKey {α : Type} (l : List (String × α)) : List (String × α) := dedupAux [] l
+
 -- ------------------------------------------------------------------------------------------ pushdown_projections
 /-- the disjuncts of the `if` that sets `parent_selections = {SELECT_ALL}` (no column may be pruned) -/
 inductive ProjAtom where
